@@ -2375,7 +2375,10 @@ selectDecoder(dRess_t ress,
         g_magicRead = 0;
     } else {
         size_t const nbReadBytes = fread(MNstore, 1, MAGICNUMBER_SIZE, finput);
-        if (nbReadBytes==0) { nbFrames = 0; return ENDOFSTREAM; }   /* EOF */
+        if (nbReadBytes==0) {
+            if (ferror(finput)) END_PROCESS(54, "Read error : cannot read next frame header");
+            nbFrames = 0; return ENDOFSTREAM;   /* EOF */
+        }
         if (nbReadBytes != MAGICNUMBER_SIZE)
           END_PROCESS(40, "Unrecognized header : Magic Number unreadable");
         magicNumber = LZ4IO_readLE32(MNstore);   /* Little Endian format */
